@@ -1,12 +1,38 @@
-(* C01_Finding.v — what the code AS WRITTEN (aintr = false) allows: thread_interrupt's branch for a
-   target that is not SLEEPING (thread.cpp 1480-1485) reads `state`, reads `error_number` and then
-   writes `error_number` with no lock; a write that lands late overwrites the -1 by which
-   do_mutex_unlock told a waiter that it has been made the owner.  The waiter's lock() then
-   returns -1/EINTR although `owner == CURRENT`: the mutex is stuck. *)
+(* C01_Finding.v — finding F33 (FIXED in /repo by commit 34f175e), kept as the record of what the
+   code allowed BEFORE the repair, and the same schedule on the repaired code.
+
+   Before the repair thread_interrupt's branch for a target that is not SLEEPING read `state`, read
+   `error_number` and then STORED `error_number` with no lock (plain store where the compare-and-
+   swap is now); a store that lands late overwrites the -1 by which do_mutex_unlock told a waiter
+   that it has been made the owner.  The waiter's lock() then returns -1/EINTR although
+   `owner == CURRENT`: the mutex is stuck.  `tstep_prefix` is C01_Model.tstep with that one
+   transition (PIo2) as it was; nothing else in /verif is about it. *)
 From Coq Require Import ZArith List Bool Arith.
 From PV Require Import Base.U64 C01.C01_Model C01.C01_Tac.
 Import ListNotations.
 Local Open Scope Z_scope.
+
+Definition tstep_prefix (s : state) (t : tid) : option state :=
+  match pc (th s t) with
+  | PIo2 x e lk => Some (goto (setT s x (set_err (th s x) e)) t (intr_fin x lk))   (* th->error_number = e *)
+  | _ => tstep s t
+  end.
+Definition step_prefix (s : state) (l : label) : option state :=
+  match l with LStep t => tstep_prefix s t | _ => step s l end.
+Fixpoint run_prefix (s : state) (ls : list label) : option state :=
+  match ls with
+  | [] => Some s
+  | l :: r => match step_prefix s l with Some s' => run_prefix s' r | None => None end
+  end.
+Inductive reachable_prefix : state -> Prop :=
+| rp_init : forall s, is_init s -> reachable_prefix s
+| rp_step : forall s l s', reachable_prefix s -> step_prefix s l = Some s' -> reachable_prefix s'.
+Lemma reachable_prefix_run s ls s' : reachable_prefix s -> run_prefix s ls = Some s' -> reachable_prefix s'.
+Proof.
+  intros H. revert s H. induction ls as [|l r IH]; intros s H Hr; cbn in Hr.
+  - inversion Hr; subst; exact H.
+  - destruct (step_prefix s l) eqn:E; [|discriminate]. eapply IH; [|exact Hr]. eapply rp_step; eauto.
+Qed.
 
 (* threads: 0 = A (holder), 1 = W (waiter), 2 = I (interrupter, another vCPU); mutex 0 = seq_mutex *)
 Definition f_init : state :=
@@ -19,18 +45,31 @@ Definition f_sched : list label :=
     LSched 1%nat; LStep 1%nat; LStep 1%nat;                                      (* W runs again, yield returns 0 *)
     LStart 1%nat (MLock 0%nat MAX64); LStep 1%nat; LStep 1%nat; LStep 1%nat; LStep 1%nat; LStep 1%nat; LStep 1%nat;   (* W: lock() -> asleep in the queue *)
     LStart 0%nat (MUnlock 0%nat); LStep 0%nat; LStep 0%nat; LStep 0%nat; LStep 0%nat; LStep 0%nat; LStep 0%nat; LStep 0%nat;  (* A: unlock: owner := W, W.error_number := -1, READY *)
-    LStep 2%nat;                                                         (* ... I: error_number = EINTR  (late) *)
-    LSched 1%nat; LStep 1%nat; LStep 1%nat ].                                    (* W: lock() returns -1 / EINTR *)
+    LStep 2%nat;                                                         (* ... I: the late store / the CAS *)
+    LSched 1%nat; LStep 1%nat; LStep 1%nat ].                                    (* W resumes *)
 
 Definition lock_failed_but_owner (s : state) (t : tid) (m : mid) : Prop :=
   exists e, pc (th s t) = PRet (RLock m) (-1) e /\ owner (mx s m) = Some t /\ cnt (th s t) m = O.
 
+(* BEFORE the repair: lock() has returned -1/EINTR while owner == CURRENT *)
 Lemma lock_result_refuted_l :
-  exists s, reachable s /\ aintr s = false /\ lock_failed_but_owner s 1%nat 0%nat.
+  exists s, reachable_prefix s /\ aintr s = false /\ lock_failed_but_owner s 1%nat 0%nat.
 Proof.
-  destruct (run f_init f_sched) as [s|] eqn:E; [|vm_compute in E; discriminate].
+  destruct (run_prefix f_init f_sched) as [s|] eqn:E; [|vm_compute in E; discriminate].
   exists s. split; [|split].
-  - eapply reachable_run; [|exact E]. apply reach_init. unfold f_init. repeat eexists.
+  - eapply reachable_prefix_run; [|exact E]. apply rp_init. unfold f_init. repeat eexists.
   - vm_compute in E. injection E as <-. reflexivity.
   - vm_compute in E. injection E as <-. exists 4. vm_compute. auto.
+Qed.
+
+(* WITH the repair (the model of the current code): on the same schedule the CAS fails, W sees
+   error_number = -1, checks `owner` and its lock() returns 0 as the owner *)
+Lemma f33_schedule_repaired_l :
+  exists s, run f_init (f_sched ++ [LStep 1%nat]) = Some s /\ reachable s /\ aintr s = false /\
+            pc (th s 1%nat) = PRet (RLock 0%nat) 0 0 /\ owner (mx s 0%nat) = Some 1%nat /\ cnt (th s 1%nat) 0%nat = 1%nat.
+Proof.
+  destruct (run f_init (f_sched ++ [LStep 1%nat])) as [s|] eqn:E; [|vm_compute in E; discriminate].
+  exists s. split; [reflexivity|]. split; [|].
+  - eapply reachable_run; [|exact E]. apply reach_init. unfold f_init. repeat eexists.
+  - vm_compute in E. injection E as <-. vm_compute. auto.
 Qed.
